@@ -10,12 +10,19 @@
 (* machine's result = the definition CauseDef (fits ? the text : the fallback).  The final  *)
 (* states are printed as vectors for the driver (clishapes cause).                          *)
 EXTENDS Cli, Json
-CONSTANTS Pieces, MaxPieces
+CONSTANTS Mode, Pieces, MaxPieces, PreSet, MaxChars
 VARIABLES all, todo, len, st
 vars == <<all, todo, len, st>>
 
-Init == \E k \in 0..MaxPieces : \E s \in [1..k -> Pieces] :
-            all = s /\ todo = s /\ len = 0 /\ st = "writing"
+\* Mode = "pieces": every sequence of <= MaxPieces piece lengths out of Pieces.
+\* Mode = "chars":  a first piece of PreSet bytes (write_str) followed by 1..MaxChars CHARACTERS of 1..4
+\* bytes each (Formatter::write_char, which by default encodes into a temporary and calls write_str
+\* with those 1..4 bytes): the text ends at every offset around the capacity.
+Init == IF Mode = "pieces"
+        THEN \E k \in 0..MaxPieces : \E s \in [1..k -> Pieces] :
+                all = s /\ todo = s /\ len = 0 /\ st = "writing"
+        ELSE \E pre \in PreSet : \E k \in 1..MaxChars : \E w \in [1..k -> 1..4] :
+                all = <<pre>> \o w /\ todo = all /\ len = 0 /\ st = "writing"
 WriteStr ==
     /\ st = "writing" /\ todo # <<>>
     /\ IF Head(todo) > CauseCap - len
